@@ -13,7 +13,7 @@ func init() {
 		ID:    "C05",
 		Title: "Written entity's media type is produced by the route and best for Accept",
 		Decided: "C05.a every piece cut from Accept / Content-Type / Access-Control-Request-Headers is trimmed after its last cut before it is compared, looked up or parsed (router and writer side alike); C05.b no result-affecting dependence on map iteration order on the request path; C05.c Content-Type is set before the status is written, with the accessor's own type, which the built-in registrations bind to the key they are registered under; " +
-			"C05.d the Response is given the request's Accept header verbatim and the selected route's Produces; C05.e inside the negotiation loop an entity writer is only returned for a media type taken from the route's Produces (directly, or an Accept range shown equal to a Produces entry); C05.g a framework filter passes on the pair it received; C05.h registry keys are normalised alike on registration and lookup; C05.f Accept ranges are ranked by a stable insertion (strictly-greater test), not by an unstable sort. Header text is never searched for a literal that spans a separator and a neighbouring token (such as \"q=\"), which optional whitespace would defeat. C05.i where a token of Accept/Content-Type is compared for equality with a declared value, both operands were case-folded by the same functions or neither.",
+			"C05.d the Response is given the request's Accept header verbatim and the selected route's Produces; C05.e inside the negotiation loop an entity writer is only returned for a media type taken from the route's Produces (directly, or an Accept range shown equal to a Produces entry); C05.g a framework filter passes on the pair it received; C05.h registry keys are normalised alike on registration and lookup; C05.f Accept ranges are ranked by a stable insertion (strictly-greater test), not by an unstable sort. Header text is never searched for a literal that spans a separator and a neighbouring token (such as \"q=\"), which optional whitespace would defeat. C05.i where a token of Accept/Content-Type is compared for equality with a declared value, both operands were case-folded by the same functions or neither. C05.j a number (q-value) is parsed from a piece that was cut at every separator of its level.",
 		NotDecided: "the q-value ordering and the fallback order as values (ranking semantics over the Accept grammar); 'never 406 after the router admitted' beyond C05.a, which removes the only divergence found by reading.",
 		Rules: []Rule{
 			{ID: "C05.a", Template: "T-TOKEN", Required: true, Run: ruleTokenAll,
